@@ -198,6 +198,9 @@ func (cf *CloudflarePublisher) PublishECH(ctx context.Context, records []Target,
 			results = append(results, result)
 			continue
 		}
+		// Remember what is published now: the same record may be listed
+		// more than once.
+		data[zoneName{r.Zone, r.Name}] = v
 		result.Code = StatusUpdated
 		results = append(results, result)
 	}
